@@ -603,6 +603,16 @@ class C17(Check):
         for root, cache, rel in self.configs():
             for chain in ((17, 10), (40, 200)) if tier != "quick" or (root, cache) in ((False, True), (True, True)) else ((17, 200),):
                 yield {"kind": 0, "root": root, "cache": cache, "rel": rel, "base": [], "relname": False, "chain": chain, "history": ["Rc", "Rc"]}
+        # an OPTIONAL include / import target that was rendered (and cached) and then disappears: deleted, replaced by a
+        # directory, its parent directory gone; renders go on (nothing for the optional include) and it comes back later
+        for root, cache, rel in self.configs():
+            tgt = "Dj" if rel else "Di"
+            back = "Ej" if rel else "Ei"
+            xd = "Xj" if rel else "Xi"
+            for h in (["R", tgt, "R", "R"], ["R", tgt, "R", back, "R", tgt, "R"], ["R", xd, "R", "R", back, "R"], [tgt, "R", back, "R", tgt, "R", "R"]):
+                n += 1
+                yield {"kind": 0, "root": root, "cache": cache, "rel": rel, "base": [], "relname": (n % 3 == 0), "history": h,
+                       "main_variant": ("inc.txt", 4, "lib.txt")}
         # a loader handed in through `env` (FileSystemLoader, ChoiceLoader, ChoiceLoader with a PrefixLoader in front):
         # relative_includes (explicit or the default) and the configured context apply as with root_dir
         for kind in ("fsl", "choice", "prefix"):
